@@ -161,6 +161,167 @@ theorem case_simple_def (tys : List Ty) (row : Row) (x : Expr) (xv : Value)
   rw [hx]
   exact key parts
 
+/-! ## String functions (texts are byte strings; letters are the ASCII letters) -/
+
+/-- a string function of NULL is NULL, of a text its defining value; of anything else a type error -/
+theorem strfn_def (tys : List Ty) (row : Row) (f : StrFn) (e : Expr) (v : Value)
+    (h : eval .none tys row e = .ok v) :
+    eval .none tys row (.strFn f e) =
+      match v with
+      | .null => .ok .null
+      | .text s => .ok (applyStrFn f s)
+      | _ => .error .type := by
+  simp only [eval, h]
+  cases v <;> rfl
+
+/-- `a || b` is the concatenation; NULL if either side is NULL -/
+theorem concat_def (tys : List Ty) (row : Row) (a b : Expr) (x y : List Nat) :
+    (eval .none tys row a = .ok (.text x) → eval .none tys row b = .ok (.text y) →
+      eval .none tys row (.concat a b) = .ok (.text (x ++ y))) ∧
+    (eval .none tys row a = .ok .null → eval .none tys row b = .ok (.text y) →
+      eval .none tys row (.concat a b) = .ok .null) ∧
+    (eval .none tys row a = .ok (.text x) → eval .none tys row b = .ok .null →
+      eval .none tys row (.concat a b) = .ok .null) := by
+  refine ⟨?_, ?_, ?_⟩ <;> intro ha hb <;> simp only [eval, ha, hb] <;> rfl
+
+theorem upperByte_idem (b : Nat) : upperByte (upperByte b) = upperByte b := by
+  simp only [upperByte, Bool.and_eq_true, decide_eq_true_eq]
+  split
+  · rename_i h
+    split
+    · omega
+    · rfl
+  · rfl
+
+theorem lowerByte_idem (b : Nat) : lowerByte (lowerByte b) = lowerByte b := by
+  simp only [lowerByte, Bool.and_eq_true, decide_eq_true_eq]
+  split
+  · rename_i h
+    split
+    · omega
+    · rfl
+  · rfl
+
+theorem upper_lower_byte (b : Nat) : upperByte (lowerByte b) = upperByte b ∧ lowerByte (upperByte b) = lowerByte b := by
+  simp only [upperByte, lowerByte, Bool.and_eq_true, decide_eq_true_eq]
+  constructor
+  · by_cases h1 : 65 ≤ b ∧ b ≤ 90
+    · have h2 : 97 ≤ b + 32 ∧ b + 32 ≤ 122 := by omega
+      have h3 : ¬ (97 ≤ b ∧ b ≤ 122) := by omega
+      simp [h1, h2, h3]
+    · simp [h1]
+  · by_cases h1 : 97 ≤ b ∧ b ≤ 122
+    · have h2 : 65 ≤ b - 32 ∧ b - 32 ≤ 90 := by omega
+      have h3 : ¬ (65 ≤ b ∧ b ≤ 90) := by omega
+      simp only [h1, h2, h3, and_self, if_true, if_false]
+      omega
+    · simp [h1]
+
+/-- UPPER and LOWER are idempotent, absorb each other, keep the number of bytes and change ASCII letters only -/
+theorem upper_lower_laws (s : List Nat) :
+    (s.map upperByte).map upperByte = s.map upperByte ∧
+    (s.map lowerByte).map lowerByte = s.map lowerByte ∧
+    (s.map lowerByte).map upperByte = s.map upperByte ∧
+    (s.map upperByte).map lowerByte = s.map lowerByte ∧
+    (s.map upperByte).length = s.length ∧ (s.map lowerByte).length = s.length ∧
+    (∀ b, ¬ (97 ≤ b ∧ b ≤ 122) → upperByte b = b) ∧ (∀ b, ¬ (65 ≤ b ∧ b ≤ 90) → lowerByte b = b) ∧
+    (∀ b, 97 ≤ b ∧ b ≤ 122 → upperByte b + 32 = b) ∧ (∀ b, 65 ≤ b ∧ b ≤ 90 → lowerByte b = b + 32) := by
+  refine ⟨?_, ?_, ?_, ?_, by simp, by simp, ?_, ?_, ?_, ?_⟩
+  · simp [List.map_map, Function.comp_def, upperByte_idem]
+  · simp [List.map_map, Function.comp_def, lowerByte_idem]
+  · simp [List.map_map, Function.comp_def, (upper_lower_byte _).1]
+  · simp [List.map_map, Function.comp_def, (upper_lower_byte _).2]
+  · intro b h; simp [upperByte, h]
+  · intro b h; simp [lowerByte, h]
+  · intro b h; simp only [upperByte, h, decide_true, Bool.and_self, if_true]; omega
+  · intro b h; simp [lowerByte, h]
+
+theorem isLead_upper (b : Nat) : (upperByte b < 128 || 192 ≤ upperByte b) = (b < 128 || 192 ≤ b) := by
+  simp only [upperByte, Bool.and_eq_true, decide_eq_true_eq]
+  split
+  · rename_i h
+    have h1 : b - 32 < 128 := by omega
+    have h2 : b < 128 := by omega
+    simp [h1, h2]
+  · rfl
+
+theorem isLead_lower (b : Nat) : (lowerByte b < 128 || 192 ≤ lowerByte b) = (b < 128 || 192 ≤ b) := by
+  simp only [lowerByte, Bool.and_eq_true, decide_eq_true_eq]
+  split
+  · rename_i h
+    have h1 : b + 32 < 128 := by omega
+    have h2 : b < 128 := by omega
+    simp [h1, h2]
+  · rfl
+
+/-- LENGTH counts characters: additive over `||`, unchanged by UPPER / LOWER, the number of bytes of an ASCII text -/
+theorem length_laws (a b : List Nat) :
+    charCount (a ++ b) = charCount a + charCount b ∧
+    charCount (a.map upperByte) = charCount a ∧ charCount (a.map lowerByte) = charCount a ∧
+    ((∀ x ∈ a, x < 128) → charCount a = a.length) := by
+  refine ⟨by simp [charCount], ?_, ?_, ?_⟩
+  · simp only [charCount, List.filter_map, List.length_map]
+    congr 1
+    apply List.filter_congr
+    intro x _
+    simp only [Function.comp]
+    exact isLead_upper x
+  · simp only [charCount, List.filter_map, List.length_map]
+    congr 1
+    apply List.filter_congr
+    intro x _
+    simp only [Function.comp]
+    exact isLead_lower x
+  · intro h
+    simp only [charCount]
+    rw [List.filter_eq_self.mpr]
+    intro x hx
+    simp [h x hx]
+
+/-- LTRIM removes exactly the leading spaces, RTRIM exactly the trailing ones -/
+theorem trim_def (s : List Nat) :
+    (∃ n, s = List.replicate n 32 ++ ltrimBytes s) ∧ (ltrimBytes s).head? ≠ some 32 ∧
+    (∃ n, s = rtrimBytes s ++ List.replicate n 32) ∧ (rtrimBytes s).getLast? ≠ some 32 := by
+  have hl : ∀ t : List Nat, (∃ n, t = List.replicate n 32 ++ ltrimBytes t) ∧ (ltrimBytes t).head? ≠ some 32 := by
+    intro t
+    induction t with
+    | nil => exact ⟨⟨0, rfl⟩, by simp [ltrimBytes]⟩
+    | cons x xs ih =>
+      by_cases hx : x = 32
+      · subst hx
+        obtain ⟨⟨n, hn⟩, h2⟩ := ih
+        refine ⟨⟨n + 1, ?_⟩, ?_⟩
+        · simp only [ltrimBytes, List.dropWhile_cons, beq_self_eq_true, if_true, List.replicate_succ, List.cons_append]
+          congr 1
+        · simpa [ltrimBytes] using h2
+      · refine ⟨⟨0, ?_⟩, ?_⟩
+        · simp [ltrimBytes, hx]
+        · simp [ltrimBytes, hx]
+  refine ⟨(hl s).1, (hl s).2, ?_, ?_⟩
+  · obtain ⟨n, hn⟩ := (hl s.reverse).1
+    refine ⟨n, ?_⟩
+    have := congrArg List.reverse hn
+    simpa [rtrimBytes] using this
+  · have := (hl s.reverse).2
+    simpa [rtrimBytes, List.getLast?_reverse] using this
+
+/-- trimming twice is trimming once; `||` is associative with the empty text as unit -/
+theorem trim_concat_laws (s t u : List Nat) :
+    ltrimBytes (ltrimBytes s) = ltrimBytes s ∧ rtrimBytes (rtrimBytes s) = rtrimBytes s ∧
+    concatV (.text s) (.text []) = .ok (.text s) ∧
+    (concatV (.text s) (.text t)).bind (concatV · (.text u)) = (concatV (.text t) (.text u)).bind (concatV (.text s) ·) := by
+  have hl : ∀ t : List Nat, ltrimBytes (ltrimBytes t) = ltrimBytes t := by
+    intro t
+    induction t with
+    | nil => rfl
+    | cons x xs ih =>
+      by_cases hx : x = 32
+      · subst hx; simpa [ltrimBytes] using ih
+      · simp [ltrimBytes, hx]
+  refine ⟨hl s, ?_, by simp [concatV], ?_⟩
+  · simp [rtrimBytes, hl]
+  · simp [concatV, Except.bind, List.append_assoc]
+
 /-! ## Aggregates -/
 
 /-- COUNT(expr) counts the non-NULL values only; COUNT(*) counts rows -/
